@@ -777,7 +777,7 @@ func runC30(r *core.Run) {
 	r.Floor("schemas_with_query_templates", 200)
 	r.Floor("schemas_with_tx_templates", 200)
 
-	r.ForEach("main", r.N(12_000, 300_000), 0, func(c *core.Case) {
+	r.ForEach("main", r.N(5_000, 100_000), 0, func(c *core.Case) {
 		rng := c.Rng
 		chartDoc, st := c30GenChart(rng)
 		doc := map[string]any{"chart": chartDoc}
@@ -941,10 +941,10 @@ func runC30(r *core.Run) {
 			}
 			if v.hasTpl {
 				if d := c30TxDiff(orig.Transactions, v.txs); d != "" {
-					fail(v.name, strings.ReplaceAll(d, " ", "-"), map[string]any{"wire": v.wire})
+					fail(v.name, strings.ReplaceAll(strings.ReplaceAll(d, ": ", ":"), " ", "-"), map[string]any{"wire": v.wire})
 				}
 				if d := c30QueryDiff(orig.Queries, v.queries); d != "" {
-					fail(v.name, strings.ReplaceAll(d, " ", "-"), map[string]any{"wire": v.wire})
+					fail(v.name, strings.ReplaceAll(strings.ReplaceAll(d, ": ", ":"), " ", "-"), map[string]any{"wire": v.wire})
 				}
 				if (v.txs.Validate() == nil) != (origTxErr == nil) {
 					fail(v.name, "transaction-templates-validity-differs", map[string]any{"wire": v.wire})
